@@ -14,29 +14,24 @@ import shutil
 import subprocess
 
 REPO_V = r"""
-From Coq Require Import String List Bool ZArith.
-From VF Require Import Locks.Checker.
-Require Import Skeleton.
-Import ListNotations.
 Definition failing := Eval vm_compute in filter (fun f => negb (balanced prog f)) (map fst prog).
 Print failing.
-Definition unknown_entry_points := Eval vm_compute in
-  filter (fun f => match assoc f prog with Some (_, mkSum [] []) => false | _ => true end) entry_points.
-Print unknown_entry_points.
-"""
 
-BALANCED_V = r"""
-From Coq Require Import String List Bool ZArith.
-From VF Require Import Locks.Checker.
-Require Import Skeleton.
-Import ListNotations.
+Definition is_neutral (sm : summary) : bool :=
+  match s_delta sm, s_dirty sm with [], [] => true | _, _ => false end.
+Lemma is_neutral_eq sm : is_neutral sm = true -> sm = neutral.
+Proof. destruct sm as [[|] [|]]; cbn; try discriminate; reflexivity. Qed.
+
+Definition unknown_entry_points := Eval vm_compute in
+  filter (fun f => match assoc f prog with Some (_, sm) => negb (is_neutral sm) | None => true end) entry_points.
+Print unknown_entry_points.
 
 (* Every function of the repository's lock skeleton passes the check ... *)
 Theorem repo_balanced : forallb (balanced prog) (map fst prog) = true.
 Proof. vm_compute. reflexivity. Qed.
 
 Lemma entry_points_neutral :
-  forallb (fun f => match assoc f prog with Some (_, mkSum [] []) => true | _ => false end) entry_points = true.
+  forallb (fun f => match assoc f prog with Some (_, sm) => is_neutral sm | None => false end) entry_points = true.
 Proof. vm_compute. reflexivity. Qed.
 
 (* ... hence every returning path of every function without a declared
@@ -46,7 +41,9 @@ Theorem repo_entry_points_release_everything :
 Proof.
   intros f Hin h Hr i.
   pose proof (proj1 (forallb_forall _ _) entry_points_neutral f Hin) as Hn.
-  destruct (assoc f prog) as [[body [[|] [|]]]|] eqn:Ha; try discriminate.
+  cbv beta in Hn.
+  destruct (assoc f prog) as [[body sm]|] eqn:Ha; [|discriminate].
+  apply is_neutral_eq in Hn; subst sm.
   exact (balanced_sound prog repo_balanced f body Ha h Hr i).
 Qed.
 Print Assumptions repo_entry_points_release_everything.
@@ -86,19 +83,17 @@ def static_locks(tier, seed, build, repo, verif):
            "%d with a declared summary, %d modelled in Pile.v" % (
                stats["functions_seen"], len(stats["packages"]), stats["functions_with_lock_operations"],
                stats["functions_emitted"], stats["functions_with_declared_summary"], stats["functions_modelled_elsewhere"]), None)
-    coq = ["coqc", "-Q", os.path.join(verif, "coq", "theories"), "VF", "-R", ".", ""]
-    rc, out = _sh(["timeout", "600"] + coq + ["Skeleton.v"], cwd=gen, timeout=660)
-    if rc:
-        yield ("lock-skeleton-wellformed", False, "generated Skeleton.v does not compile:\n" + out[-1500:], None)
-        return
-    open(os.path.join(gen, "Repo.v"), "w").write(REPO_V)
-    rc, out = _sh(["timeout", "600"] + coq + ["Repo.v"], cwd=gen, timeout=660)
+    # one file: the generated skeleton followed by the obligations
+    src = open(os.path.join(gen, "Skeleton.v")).read().replace(
+        "From Coq Require Import String List ZArith.", "From Coq Require Import String List Bool ZArith.")
+    open(os.path.join(gen, "RepoBalanced.v"), "w").write(src + REPO_V)
+    rc, out = _sh(["timeout", "900", "coqc", "-Q", os.path.join(verif, "coq", "theories"), "VF", "RepoBalanced.v"], cwd=gen, timeout=960)
     flat = " ".join(out.split())
     m = re.search(r"failing = (\[.*?\]) : list string", flat)
     failing = re.findall(r'"([^"]+)"', m.group(1)) if m else None
     m2 = re.search(r"unknown_entry_points = (\[.*?\]) : list string", flat)
     unknown = re.findall(r'"([^"]+)"', m2.group(1)) if m2 else None
-    if rc or failing is None or unknown is None:
+    if failing is None or (unknown is None and not failing):
         yield ("repo_balanced", False, "could not evaluate the checker on the generated skeleton:\n" + out[-1500:], None)
         return
     if failing or unknown:
@@ -111,8 +106,6 @@ def static_locks(tier, seed, build, repo, verif):
             note += "; entry points missing from the skeleton: " + ", ".join(unknown)
         yield ("repo_balanced", False, note, {"failing_functions": failing, "skeleton": os.path.join(gen, "Skeleton.v")})
         return
-    open(os.path.join(gen, "RepoBalanced.v"), "w").write(BALANCED_V)
-    rc, out = _sh(["timeout", "900"] + coq + ["RepoBalanced.v"], cwd=gen, timeout=960)
     if rc or "Closed under the global context" not in out:
         yield ("repo_balanced", False, "RepoBalanced.v failed:\n" + out[-1500:], None)
         return
